@@ -450,17 +450,26 @@ class IRGenerator:
                             item.lineno, item.path)
                     env[item.target] = imported_env
 
+    @staticmethod
+    def _symbol_already_defined(item, existing):
+        ast_node = getattr(existing, '_ast_node', None)
+        if ast_node is None:
+            # The name belongs to a built-in type, which has no location.
+            return InvalidSpec(
+                'Symbol %s already defined as a built-in type.' %
+                quote(item.name), item.lineno, item.path)
+        return InvalidSpec(
+            'Symbol %s already defined (%s:%d).' %
+            (quote(item.name), ast_node.path, ast_node.lineno),
+            item.lineno, item.path)
+
     def _create_alias(self, env, item):
         # NOTE: I don't like supporting forward references for aliases
         # because it makes specs harder to read. But we have to so that if a
         # namespace is split across multiple files, the order they're specified
         # in the command line which affects alias ordering is irrelevant.
         if item.name in env:
-            existing_dt = env[item.name]
-            raise InvalidSpec(
-                'Symbol %s already defined (%s:%d).' %
-                (quote(item.name), existing_dt._ast_node.path,
-                existing_dt._ast_node.lineno), item.lineno, item.path)
+            raise self._symbol_already_defined(item, env[item.name])
 
         namespace = self.api.ensure_namespace(env.namespace_name)
         alias = Alias(item.name, namespace, item)
@@ -470,11 +479,7 @@ class IRGenerator:
 
     def _create_annotation(self, env, item):
         if item.name in env:
-            existing_dt = env[item.name]
-            raise InvalidSpec(
-                'Symbol %s already defined (%s:%d).' %
-                (quote(item.name), existing_dt._ast_node.path,
-                existing_dt._ast_node.lineno), item.lineno, item.path)
+            raise self._symbol_already_defined(item, env[item.name])
 
         namespace = self.api.ensure_namespace(env.namespace_name)
 
@@ -503,11 +508,7 @@ class IRGenerator:
 
     def _create_annotation_type(self, env, item):
         if item.name in env:
-            existing_dt = env[item.name]
-            raise InvalidSpec(
-                'Symbol %s already defined (%s:%d).' %
-                (quote(item.name), existing_dt._ast_node.path,
-                existing_dt._ast_node.lineno), item.lineno, item.path)
+            raise self._symbol_already_defined(item, env[item.name])
 
         namespace = self.api.ensure_namespace(env.namespace_name)
 
@@ -550,11 +551,7 @@ class IRGenerator:
     def _create_type(self, env, item):
         """Create a forward reference for a union or struct."""
         if item.name in env:
-            existing_dt = env[item.name]
-            raise InvalidSpec(
-                'Symbol %s already defined (%s:%d).' %
-                (quote(item.name), existing_dt._ast_node.path,
-                 existing_dt._ast_node.lineno), item.lineno, item.path)
+            raise self._symbol_already_defined(item, env[item.name])
         namespace = self.api.ensure_namespace(env.namespace_name)
         if isinstance(item, AstStructDef):
             try:
@@ -1264,12 +1261,7 @@ class IRGenerator:
                             existing_dt._ast_node.lineno),
                         item.lineno, item.path)
             else:
-                existing_dt = env[item.name]
-                raise InvalidSpec(
-                    'Symbol %s already defined (%s:%d).' % (
-                        quote(item.name), existing_dt._ast_node.path,
-                        existing_dt._ast_node.lineno),
-                    item.lineno, item.path)
+                raise self._symbol_already_defined(item, env[item.name])
         else:
             env[item.name] = ApiRoutesByVersion()
 
